@@ -1,13 +1,14 @@
 import CalicoVerif.Proofs.C11Whole
 import CalicoVerif.Proofs.C11Range
 import CalicoVerif.Proofs.C11Total
+import CalicoVerif.Proofs.C11Long
 /-!
 C11 — BPF policy programs reach the same verdict as the policy semantics.
 
 Staged as DESIGN §6 says.  What is proved (every theorem is for ALL inputs of
 the stated shape; no sampling):
 
-* `polprog_verdict_partial` — **whole program, IPv4, not split**: for every
+* `polprog_verdict_partial` — **whole program, IPv4 and IPv6, not split**: for every
   `Rules` configuration whose policy rules have allow/deny/pass/next-tier/log actions
   (profile rules: allow/deny/pass) and API-valid criteria (`ProgOK`), with or without
   flow-log rule-hit recording, every packet state and every IP-set
@@ -18,7 +19,8 @@ the stated shape; no sampling):
   `pol_rc` = 1 / 2, or (failed tail call) exit with TC_ACT_SHOT / XDP_DROP and
   `pol_rc` = 10 / 2, or XDP_PASS for untracked policy that neither allows nor
   denies.  Covers: all match criteria and their negations (protocol, CIDRs,
-  IP sets incl. the byte-exact LPM key on the stack, numeric and named ports,
+  (IPv4: one masked word; IPv6: up to four sections with the early exit to the per-CIDR end label),
+  IP sets incl. the byte-exact 20- or 32-byte LPM key on the stack, numeric and named ports,
   ICMP type/code), `log` rules (flag set, evaluation continues) and rule-hit recording
   (the state is written only outside the packet fields), tiers, pass, end-of-tier actions, profiles, pre-DNAT /
   apply-on-forward / normal host policy, host flags, XDP.
@@ -34,9 +36,15 @@ the stated shape; no sampling):
 
 `_partial` because not yet covered by theorems (they ARE covered by the
 instruction-exact tie and by the interpreter-vs-reference oracle on every
-generated packet): program splitting, IPv6, a failing state-map lookup.
+generated packet): splitting into SEVERAL programs (landing pads, policy-jump tail-call chain),
+`Assemble` succeeding for programs beyond the trampoline stride.
 
-* `compile_total_partial` (IPv4, not split) — validity (`Buildable`) ⇒ `Builder.Instructions`
+* `polprog_state_lookup_fails` — a failing state-map lookup drops the packet, state untouched.
+* `polprog_verdict_long_partial` — unsplit programs of ANY length: the long-jump trampolines the
+  block inserts preserve the semantics (`trampolines_sound_all` for any event list and any
+  insertion, `expand_relayed_all`: the block bookkeeping performs such an insertion).
+
+* `compile_total_partial` (IPv4 and IPv6, not split) — validity (`Buildable`) ⇒ `Builder.Instructions`
   neither panics nor does `Assemble` fail; `polprog_built_verdict_partial` combines it with the
   whole-program theorem, so no build hypothesis is left; `assemble_total_all` — the assembler is
   total on closed event lists.
@@ -68,7 +76,7 @@ theorem expand_noSplit_all (c : Cfg) (xdp : Bool) (bevs : List BEv) (h : c.polic
   expand_noSplit c xdp bevs h hlen
 
 /-- The match part of any API-valid rule is a guard for the reference `ruleMatch`
-(IPv4; `SetCtx`: full-size state value, IPv4 program, IP-set map FD ≠ state map FD). -/
+(IPv4 and IPv6 programs; `SetCtx`: full-size state value, IP-set map FD ≠ state map FD). -/
 theorem rule_guard (env : Env) (st : List Byte) (hc : SetCtx env st) (rid : Nat) (r : Rule) (destLeg : Leg)
     (hok : RuleOK r) :
     Guard env st (.ruleNoMatch rid) (flat (ruleMatches env.c rid r destLeg)) (ruleMatch env (pktOfD st) destLeg r) :=
@@ -95,10 +103,12 @@ theorem lrun_program_partial (env : Env) (st : List Byte) (r : Rules) (hok : Pro
       (expectedObs env r.forXDP (verdict env r (pktOfD st))).agrees o = true :=
   lrun_program env st r hok hs
 
-/-- **Whole program, assembled instructions** (IPv4, not split): running the
-instructions `Builder.Instructions` returns ends as the reference verdict demands. -/
+/-- **Whole program, assembled instructions** (IPv4 or IPv6 program, not split — `NoSplit`: splitting
+disabled, or fewer jump-class instructions than the per-program limit — and shorter than the
+trampoline stride): running the instructions `Builder.Instructions` returns ends as the reference
+verdict demands. -/
 theorem polprog_verdict_partial (env : Env) (st : List Byte) (r : Rules) (hok : ProgOK env st r)
-    (hs : env.stateOK = true) (hnosplit : env.c.policyMapStride = 0)
+    (hs : env.stateOK = true) (hnosplit : NoSplit env.c (flat (compile env.c r)))
     (hshort : (flat (compile env.c r)).length < env.c.trampolineStride)
     (prog : List Insn) (hi : instructions env.c r = some (some [prog])) :
     ∃ o, (execL env prog (Mach.init st)).obs = some o ∧
@@ -107,7 +117,7 @@ theorem polprog_verdict_partial (env : Env) (st : List Byte) (r : Rules) (hok : 
     unfold instructions at hi
     split at hi
     · cases hi
-    · rw [expand_noSplit env.c r.forXDP (compile env.c r) hnosplit hshort] at hi
+    · rw [expand_one env.c r.forXDP (compile env.c r) hnosplit hshort] at hi
       simp only [List.mapM_cons, List.mapM_nil, Option.some.injEq] at hi
       cases ha : assemble (flat (compile env.c r)) with
       | none => simp [ha] at hi
@@ -162,31 +172,73 @@ example (env : Env) (st : List Byte) (hc : SetCtx env st) : ProgOK env st exRule
 def exCfg : Cfg := { ipSetMapFD := 11, stateMapFD := 12, staticJumpMapFD := 13, policyJumpMapFD := 14,
                      useJmps := true, allowJmp := 5, denyJmp := 9 }
 example : SetCtx { c := exCfg } (List.replicate 512 0) :=
-  ⟨List.length_replicate, rfl, by decide⟩
+  ⟨List.length_replicate, by decide⟩
+example : SetCtx { c := { exCfg with v6 := true } } (List.replicate 512 0) :=
+  ⟨List.length_replicate, by decide⟩
 
 -- the build hypothesis of `polprog_verdict_partial` is satisfiable: `exRules` compiles to ONE program
 example : (match instructions exCfg exRules with
     | some (some [_]) => true
     | _ => false) = true := by decide +kernel
 
+-- IPv6: a program with a /40 source CIDR (two sections, early exit) and a /128 (four sections) and an IP set
+def exRule6 : Rule :=
+  { action := "allow", protocol := some (Proto.name "udp"),
+    srcNet := [{ v6 := true, addr := 0x20010db8ff0000000000000000000000, pfx := 40 }],
+    notDstNet := [{ v6 := true, addr := 0x20010db8000000000000000000000001, pfx := 128 }], srcIpSetIds := [9] }
+def exRules6 : Rules :=
+  { tiers := [{ endAction := EndAction.pass, endRuleID := 1, policies := [{ rules := [exRule6] }] }],
+    profiles := [{ rules := [exRule2] }] }
+example : (match instructions { exCfg with v6 := true } exRules6 with
+    | some (some [p]) => decide (0 < p.length)
+    | _ => false) = true := by decide +kernel
+
+example (env : Env) (st : List Byte) (hc : SetCtx env st) : ProgOK env st exRules6 := by
+  have hr1 : RuleOK exRule6 := by
+    refine ⟨?_, ?_, ?_, ?_⟩
+    · intro pr h
+      simp [exRule6] at h
+      subst h
+      exact ⟨17, by decide, by decide, by decide⟩
+    · intro pr h; simp [exRule6] at h
+    · intro id h; simp [Rule.ipSetIDs, exRule6] at h; subst h; decide
+    · intro pr h; simp [exRule6] at h
+  have hr2 : RuleOK exRule2 := by
+    refine ⟨?_, ?_, ?_, ?_⟩
+    · intro pr h; simp [exRule2] at h
+    · intro pr h; simp [exRule2] at h
+    · intro id h; simp [Rule.ipSetIDs, exRule2] at h
+    · intro pr h; simp [exRule2] at h
+  refine ⟨hc, ?_, ?_, ?_, ?_, ?_, ?_⟩
+  · intro t ht pol hp rule hr
+    simp [exRules6] at ht; subst ht; simp at hp; subst hp; simp at hr; subst hr
+    exact ⟨by decide, hr1⟩
+  · intro t ht; simp [exRules6] at ht
+  · intro t ht; simp [exRules6] at ht
+  · intro t ht; simp [exRules6] at ht
+  · intro pol hp rule hr
+    simp [exRules6] at hp; subst hp; simp at hr; subst hr
+    exact ⟨by decide, hr2⟩
+  · intro pol hp; simp [exRules6] at hp
+
 -- ... short of the trampoline stride and without splitting
 example : exCfg.policyMapStride = 0 ∧ (flat (compile exCfg exRules)).length < exCfg.trampolineStride := by
   decide +kernel
 
-/-! ### `Builder.Instructions` is total on valid input (IPv4, one unsplit program) -/
+/-! ### `Builder.Instructions` is total on valid input (IPv4 or IPv6, one unsplit program) -/
 
-/-- **compile_total (IPv4, not split)**: for every configuration whose policy rules have an
+/-- **compile_total (IPv4 or IPv6, not split)**: for every configuration whose policy rules have an
 allow/deny/pass/next-tier/log action, whose profile rules have an allow/deny/pass/next-tier action,
 and whose rules carry non-zero IP-set ids and at most one destination IP set (`Buildable` — what
 the calculation graph hands to the builder), the builder neither panics nor does `Assemble` fail:
 every jump it emits targets a label defined LATER in the program, at most 32767 instructions
 ahead.  `hshort`/`hstride`: the program fits one block below the trampoline stride
 (`SetTrampolineStride` caps the stride at 32667). -/
-theorem compile_total_partial (c : Cfg) (r : Rules) (hv6 : c.v6 = false) (hb : Buildable r)
-    (hnosplit : c.policyMapStride = 0) (hshort : (flat (compile c r)).length < c.trampolineStride)
+theorem compile_total_partial (c : Cfg) (r : Rules) (hb : Buildable r)
+    (hnosplit : NoSplit c (flat (compile c r))) (hshort : (flat (compile c r)).length < c.trampolineStride)
     (hstride : c.trampolineStride ≤ 32768) :
     ∃ prog, instructions c r = some (some [prog]) :=
-  instructions_total c r hv6 hb hnosplit hshort hstride
+  instructions_total c r hb hnosplit hshort hstride
 
 /-- `Assemble` succeeds on ANY event list whose jumps all target later labels and that has at most
 32767 events (the assembler model that is compared with the real `Block.Assemble`). -/
@@ -201,13 +253,13 @@ theorem assemble_total_all (evs : List Ev) (hc : closedIn [] evs = true) (hlen :
 /-- The whole-program theorem without a build hypothesis: the program EXISTS and decides as the
 reference demands. -/
 theorem polprog_built_verdict_partial (env : Env) (st : List Byte) (r : Rules) (hok : ProgOK env st r)
-    (hb : Buildable r) (hs : env.stateOK = true) (hnosplit : env.c.policyMapStride = 0)
+    (hb : Buildable r) (hs : env.stateOK = true) (hnosplit : NoSplit env.c (flat (compile env.c r)))
     (hshort : (flat (compile env.c r)).length < env.c.trampolineStride)
     (hstride : env.c.trampolineStride ≤ 32768) :
     ∃ prog, instructions env.c r = some (some [prog]) ∧
       ∃ o, (execL env prog (Mach.init st)).obs = some o ∧
         (expectedObs env r.forXDP (verdict env r (pktOfD st))).agrees o = true := by
-  obtain ⟨prog, hi⟩ := instructions_total env.c r hok.ctx.v4 hb hnosplit hshort hstride
+  obtain ⟨prog, hi⟩ := instructions_total env.c r hb hnosplit hshort hstride
   exact ⟨prog, hi, polprog_verdict_partial env st r hok hs hnosplit hshort prog hi⟩
 
 -- non-vacuity: the example configuration is buildable, the stride bound holds for the default stride
@@ -225,10 +277,56 @@ example : Buildable exRules := by
     simp [exRules] at hp; subst hp; simp at hr; subst hr
     exact ⟨by decide, i2⟩
   · intro pol hp; simp [exRules] at hp
-example : exCfg.trampolineStride ≤ 32768 ∧ exCfg.v6 = false := by decide
+example : exCfg.trampolineStride ≤ 32768 := by decide
 
 -- the hypotheses are needed: a jump to a label that is never defined does not assemble
 example : assemble [jump .deny] = none := by decide
+
+/-! ### Unsplit programs of any length: trampolines -/
+
+/-- **Whole program, unsplit, ANY length** (`policyMapStride = 0`): when the program is longer than the
+trampoline stride the block inserts long-jump trampolines (`JumpA skip; (t: JumpA t)*; skip:`) for the
+still unresolved jump targets; the instructions `Builder.Instructions` returns still end as the
+reference verdict demands.  (`hi`: the build succeeded — `compile_total_partial` proves that only
+for programs below the stride.) -/
+theorem polprog_verdict_long_partial (env : Env) (st : List Byte) (r : Rules) (hok : ProgOK env st r)
+    (hs : env.stateOK = true) (hnosplit : env.c.policyMapStride = 0)
+    (prog : List Insn) (hi : instructions env.c r = some (some [prog])) :
+    ∃ o, (execL env prog (Mach.init st)).obs = some o ∧
+      (expectedObs env r.forXDP (verdict env r (pktOfD st))).agrees o = true :=
+  polprog_verdict_long env st r hok hs hnosplit prog hi
+
+/-- Inserting trampoline blocks anywhere (not before the second slot of a `LoadImm64`, not for skip
+labels) into ANY event list whose jumps do not target skip labels preserves its semantics. -/
+theorem trampolines_sound_all (env : Env) (o n : List Ev) (h : Relayed o n) (hn : NoSkipJ o) (m : Mach) :
+    lrun env n m = lrun env o m :=
+  (relayed_sound env n.length o n (Nat.le_refl _) h hn).1 m
+
+/-- With splitting disabled the builder's single block is the plain event list with trampolines. -/
+theorem expand_relayed_all (c : Cfg) (xdp : Bool) (bevs : List BEv) (hns : c.policyMapStride = 0)
+    (hn : NoSkipJ (flat bevs)) : ∃ n, expand c xdp bevs = [n] ∧ Relayed (flat bevs) n :=
+  expand_relayed c xdp bevs hns hn
+
+-- non-vacuity: with a trampoline stride of 20 the example program really gets trampolines
+-- (the block is longer than the plain event list) and still builds to one program
+example : (match expand { exCfg with trampolineStride := 20 } false (compile { exCfg with trampolineStride := 20 } exRules) with
+    | [n] => decide ((flat (compile { exCfg with trampolineStride := 20 } exRules)).length < n.length)
+    | _ => false) = true := by decide +kernel
+example : (match instructions { exCfg with trampolineStride := 20 } exRules with
+    | some (some [_]) => true
+    | _ => false) = true := by decide +kernel
+
+-- `NoSplit` also covers the production setting: splitting enabled, fewer jumps than the limit
+example : NoSplit { exCfg with policyMapStride := 1000 } (flat (compile { exCfg with policyMapStride := 1000 } exRules)) :=
+  Or.inr (by decide +kernel)
+
+/-- **The state-map lookup of the header fails** (no `cali_tc_state` entry): the program (unsplit, any
+length) exits with TC_ACT_SHOT (XDP: XDP_DROP) and leaves the state value, hence `pol_rc`, untouched. -/
+theorem polprog_state_lookup_fails (env : Env) (st : List Byte) (r : Rules) (hok : ProgOK env st r)
+    (hs : env.stateOK = false) (hnosplit : env.c.policyMapStride = 0)
+    (prog : List Insn) (hi : instructions env.c r = some (some [prog])) :
+    ∃ m, m.st = st ∧ execL env prog (Mach.init st) = .exit (sext32 (if r.forXDP then 1 else 2)) m :=
+  polprog_stateFail env st r hok hs hnosplit prog hi
 
 /-! ### Where the full statement is false of the current code -/
 
